@@ -6,6 +6,7 @@ from typing import Any, Dict, List, Optional, Set
 from harness.core import Ctx
 from harness import fgfactory as F
 from harness import schedlib as S
+from mloda.user import Feature
 
 ASSUMPTIONS = [
     "generated feature groups compute row-wise integer expressions (+, -, *, constants, null propagation) of their parents' columns; values are small ints so every framework computes them exactly",
@@ -157,6 +158,69 @@ def e2e_suite(ctx: Ctx, n: int) -> None:
             ctx.disagree("lean_exec", {"spec": spec}, {k_: impl.get(k_) for k_ in model}, {"returned": o.get("returned"), "values": model})
 
 
+OPT_VALUES = [0, 0, 1, 2, -3, False, True, "", "a", 0.0, 2.5]
+
+
+def options_suite(ctx: Ctx, n: int) -> None:
+    """Feature groups whose calculation reads option values (through FeatureSet.get_options_key): chains of option-driven
+    features, the options given on the requested feature as group or context options and handed down to the parents; the
+    values include the boundary ones (0, False, "", 0.0) whose meaning differs from "option not set"."""
+    from mloda.user import mloda
+    from mloda.core.abstract_plugins.components.options import Options
+
+    for _ in range(n):
+        uid = F.uniq("")
+        fw = ctx.rng.choice(["pa", "pd", "py"])
+        nrows = ctx.rng.randint(1, 3)
+        rootcol = f"r{uid}"
+        root = {"name": f"R{uid}", "cols": {rootcol: [ctx.rng.randint(-4, 9) for _ in range(nrows)]}, "fw": fw}
+        depth = ctx.rng.randint(1, 3)
+        same_group = ctx.rng.random() < 0.4
+        keys = [f"o{uid}_{i}" for i in range(depth)]
+        numeric = ctx.rng.random() < 0.8
+        defs: List[Dict[str, Any]] = []
+        prev = rootcol
+        for i in range(depth):
+            f = f"d{uid}_{i}"
+            dflt = ctx.rng.choice([7, 100, 13]) if numeric else "dflt"
+            op = ctx.rng.choice(["add", "mul", "sub"]) if numeric else "cat"
+            d = {"parents": [prev], "expr": [op, ["col", prev], ["opt", keys[i], dflt]], "pass_opts": [prev] if i > 0 else []}
+            defs.append({"name": f, "def": d, "group": f"G{uid}_0" if same_group else f"G{uid}_{i}"})
+            prev = f
+        groups: Dict[str, Dict[str, Any]] = {}
+        for x in defs:
+            groups.setdefault(x["group"], {})[x["name"]] = x["def"]
+        vals_pool = [v for v in OPT_VALUES if (isinstance(v, (int, float)) and not isinstance(v, bool)) == numeric or (not numeric and isinstance(v, str))] if numeric else ["", "a", "", "zz"]
+        given = {k: ctx.rng.choice(vals_pool) for k in keys if ctx.rng.random() < 0.8}
+        where = ctx.rng.choice(["group", "group", "context"])
+        opts = Options(group=dict(given)) if where == "group" else Options(context=dict(given))
+        classes = {root["name"]: F.make_group(root["name"], root_data=root["cols"], frameworks={F.FW_SHORT[fw]})}
+        for gname, feats in groups.items():
+            classes[gname] = F.make_group(gname, derived=feats, frameworks={F.FW_SHORT[fw]})
+        # reference: bottom-up, every feature of the chain sees the options of the request
+        ref_prev = list(root["cols"][rootcol])
+        for x in defs:
+            ref_prev = [F.eval_expr(x["def"]["expr"], {x["def"]["parents"][0]: v}, given.get) for v in ref_prev]
+        case = {"root": root, "chain": defs, "options": {k: repr(v) for k, v in given.items()}, "where": where, "fw": fw}
+        mode = ctx.rng.choice(["sync", "sync", "thread"])
+        falsy = any(not v for v in given.values())
+        try:
+            res = mloda.run_all([Feature(prev, options=opts)], compute_frameworks={F.FW_SHORT[fw]}, plugin_collector=F.collector(set(classes.values())),
+                                parallelization_modes={S.MODES[mode]})  # fmt: skip
+            err = None
+        except Exception as e:
+            res, err = None, repr(e)[-300:]
+        ctx.case("options", case, falsy, where=where, depth=depth, falsy=falsy, mode=mode, fw=fw, outcome="error" if err else "ok")
+        if err:
+            ctx.violation("options", case, f"request with options raised: {err}", err, ref_prev)
+            continue
+        got: Dict[str, Any] = {}
+        for t in res or []:
+            got.update(F.to_columns(t))
+        if got.get(prev) != ref_prev or type(got.get(prev, [None])[0]) is not type(ref_prev[0]) and not numeric:
+            ctx.violation("options", case, f"value of {prev} differs from the reference evaluation with the requested options", got.get(prev), ref_prev)
+
+
 def api_suite(ctx: Ctx, n: int) -> None:
     from mloda.user import mloda
     from mloda.core.abstract_plugins.components.input_data.api.api_input_data_collection import ApiInputDataCollection
@@ -260,10 +324,11 @@ def run(ctx: Ctx) -> None:
         "e2e: seeded link-free request DAGs (derived features with 1-3 parents over 1-3 generated groups and a root group, option variants, "
         "single framework or groups spread over PyArrow/Pandas/PythonDict with transform steps) run through run_all in SYNC (+ THREADING / MULTIPROCESSING "
         "samples) and compared value by value with an independent bottom-up evaluator; single-framework SYNC cases are also executed by the Lean data-flow "
-        "model (Exec) on the exported plan; api_data: key layouts x requested api columns x derived features, and exhaustive-style routing differential; "
+        "model (Exec) on the exported plan; options: chains of option-reading features (group / context options incl. the falsy boundary values 0, False, '', 0.0) against the reference; api_data: key layouts x requested api columns x derived features, and exhaustive-style routing differential; "
         "non-trivial = a derived feature with >=2 parents or a framework change"
     )
     e2e_suite(ctx, ctx.budget(160, 3000))
+    options_suite(ctx, ctx.budget(40, 800))
     api_suite(ctx, ctx.budget(80, 1200))
     multicol_suite(ctx)
     S.stop_flight_server()
